@@ -29,6 +29,8 @@ TEMPLATES = [
     "try:\n    {n1} = {n2}({c1})\nexcept ValueError:\n    {n1} = {c2}\n    print({n3})\nfinally:\n    print({n1})",
     "def f({n1}):\n    for {n2} in {n1}:\n        if {n2} > {c1}:\n            return {n2}\n    return {c2}",
     "{n1} = {n2}({c1}, {c2})\n{n3} = max({c1}, {c2})\nz = {n2}({c2}, {c1})",
+    "match {n1}:\n    case {c1}:\n        {n2} = {c2}\n    case _:\n        {n3} = {n1}\n        raise ValueError({n2})",
+    "{n1} = {n2}.__len__() + {c1}\n{n3}.__init__({n1})\nprint({n2}.__class__)",
 ]
 NAMES = ["a", "b", "ab"]
 CONSTS = ["0", "1", "2", "'s'"]
@@ -36,7 +38,9 @@ CONSTS = ["0", "1", "2", "'s'"]
 
 def _exprs(tree):
     """Sub-expression positions that may be generalised (every expression node except operator/context helpers)."""
-    return [n for n in ast.walk(tree) if isinstance(n, ast.expr)]
+    inside_case_pattern = {id(x) for n in ast.walk(tree) if isinstance(n, ast.pattern) for x in ast.walk(n)}
+    # (`case 0:` -> `case ___:` would turn a value pattern into a capture pattern: not a sub-expression position)
+    return [n for n in ast.walk(tree) if isinstance(n, ast.expr) and id(n) not in inside_case_pattern]
 
 
 class _Replace(ast.NodeTransformer):
@@ -149,6 +153,21 @@ def _derive_concrete(t, n1, n2, n3, c1, c2, d, p):
             if loads:
                 pat_tree = _Replace(loads[-1], "___").visit(pat_tree)
         pat_tree = _Rename(old, "_v_").visit(pat_tree)
+        want_var = old
+        for k in [e for e in _exprs(pat_tree) if isinstance(e, ast.Constant)]:
+            pat_tree = _Replace(k, "___").visit(pat_tree)
+    elif d == 9:
+        # drop a statement, _v_ for one identifier, EVERY other identifier consistently by its own placeholder, ___ for
+        # every constant: statements that differ only in the identifiers they use become candidates for each other
+        if len(pat_tree.body) < 3:
+            return True
+        drop = p % len(pat_tree.body)
+        pat_tree = ast.Module(body=[s for i, s in enumerate(pat_tree.body) if i != drop], type_ignores=[])
+        ids = sorted({n.id for n in ast.walk(pat_tree) if isinstance(n, ast.Name) and n.id not in ("print", "max")})
+        old = ids[(p // 4) % len(ids)]
+        pat_tree = _Rename(old, "_v_").visit(pat_tree)
+        for i, other in enumerate(x for x in ids if x != old):
+            pat_tree = _Rename(other, "_t%d_" % i).visit(pat_tree)
         want_var = old
         for k in [e for e in _exprs(pat_tree) if isinstance(e, ast.Constant)]:
             pat_tree = _Replace(k, "___").visit(pat_tree)
